@@ -34,4 +34,16 @@ def stepTok : TState → Char → TState
 
 def runTok (st : TState) (s : List Char) : TState := s.foldl stepTok st
 
+/-- A browser's decoding of the character references the escaper emits (the six it can produce); compared by the `htmlesc`
+engine with Go's independent `html.UnescapeString` on every escaped output. -/
+def decodeRefs : List Char → List Char
+  | '&' :: '#' :: '3' :: '4' :: ';' :: r => '"' :: decodeRefs r
+  | '&' :: 'a' :: 'm' :: 'p' :: ';' :: r => '&' :: decodeRefs r
+  | '&' :: '#' :: '3' :: '9' :: ';' :: r => '\'' :: decodeRefs r
+  | '&' :: '#' :: '4' :: '3' :: ';' :: r => '+' :: decodeRefs r
+  | '&' :: 'l' :: 't' :: ';' :: r => '<' :: decodeRefs r
+  | '&' :: 'g' :: 't' :: ';' :: r => '>' :: decodeRefs r
+  | c :: r => c :: decodeRefs r
+  | [] => []
+
 end Sso.Html
